@@ -68,7 +68,7 @@ func (g *connGen) connection(peer [4]byte, sport, dport int) {
 }
 
 func genConn(r *hx.Rand, id int, mode string) HistIn {
-	in := HistIn{Mode: mode, Arp: [][4]byte{peerArp, gwOK, peerRoute, peerLost}, Note: "conn"}
+	in := HistIn{Mode: mode, Child: true, SettleMs: 20, Arp: [][4]byte{peerArp, gwOK, peerRoute, peerLost}, Note: "conn"}
 	g := &connGen{in: &in, r: r}
 	ports := []int{4000, 4000, 31337, 80, 23, 6379, 443, 9200, 1433, 139, 445}
 	n := r.PickInt([]int{1, 1, 2, 3})
@@ -88,7 +88,7 @@ func genConn(r *hx.Rand, id int, mode string) HistIn {
 // the smallest complete exchange: handshake, data read by the default reader (which then
 // closes), a second data segment for the closed reader, FIN
 func corpusConn(mode string, id int) HistIn {
-	in := HistIn{Mode: mode, Arp: [][4]byte{peerArp, gwOK}, Note: "corpus:conn data after the reader returned"}
+	in := HistIn{Mode: mode, Child: true, SettleMs: 20, Arp: [][4]byte{peerArp, gwOK}, Note: "corpus:conn data after the reader returned"}
 	g := &connGen{in: &in}
 	g.add(ipFrame(6, peerArp, ipMe, tcpSeg(2500, 4000, 100, 0, 5, fSYN, nil)), nil)
 	g.add(ipFrame(6, peerArp, ipMe, tcpSeg(2500, 4000, 101, 0, 5, fACK, nil)), &Step{SetAck: true, Poll: true, AckRel: 2})
